@@ -92,7 +92,10 @@ func Join(rng *rand.Rand, toks []string) string {
 
 // MutationKinds lists the token/byte level mutations of Mutate.
 var MutationKinds = []string{"none", "drop-token", "dup-token", "swap-tokens", "insert-token", "trailing-token", "trailing-clause", "mixed-chain", "drop-paren", "extra-paren",
-	"unterminated-string", "trailing-unterminated", "semicolon-no-list", "list-trailing-comma", "second-value", "second-placeholder", "byte-flip", "truncate", "insert-byte"}
+	"unterminated-string", "trailing-unterminated", "semicolon-no-list", "list-trailing-comma", "second-value", "second-placeholder", "byte-flip", "truncate", "insert-byte", "insert-rune", "rune-in-field"}
+
+// multi-byte runes: letters, digits and symbols outside ASCII (complete, valid encodings)
+var wideRunes = []string{"é", "ж", "ß", "Ω", "日", "٣", "９", "²", "ª", "\u00a0", "\u2028", "€", "İ", "\u212a", "\ufeff", "𝒳"}
 
 var extraTokens = []string{")", "(", "&", "|", `"y"`, "$2", "b", ";", ",", "=", "^", "#", "-", "'a'", "1", "$"}
 
@@ -183,6 +186,26 @@ func Mutate(rng *rand.Rand, kind string, toks []string) string {
 		t = append(t, `"y"`)
 	case "second-placeholder":
 		t = append(t, "$2")
+	case "rune-in-field":
+		// a non-ASCII letter/digit inside, at the end or at the start of a field
+		var fs []int
+		for i, x := range t {
+			if len(x) > 0 && (x[0] >= 'a' && x[0] <= 'z' || x[0] >= 'A' && x[0] <= 'Z') {
+				fs = append(fs, i)
+			}
+		}
+		if len(fs) > 0 {
+			i := fs[rng.Intn(len(fs))]
+			w := wideRunes[rng.Intn(len(wideRunes))]
+			switch rng.Intn(3) {
+			case 0:
+				t[i] = t[i] + w
+			case 1:
+				t[i] = t[i][:1] + w + t[i][1:]
+			default:
+				t[i] = w + t[i]
+			}
+		}
 	}
 	s := Join(rng, t)
 	switch kind {
@@ -199,6 +222,9 @@ func Mutate(rng *rand.Rand, kind string, toks []string) string {
 	case "insert-byte":
 		j := rng.Intn(len(s) + 1)
 		s = s[:j] + string([]byte{byte(rng.Intn(256))}) + s[j:]
+	case "insert-rune":
+		j := rng.Intn(len(s) + 1)
+		s = s[:j] + wideRunes[rng.Intn(len(wideRunes))] + s[j:]
 	}
 	return s
 }
